@@ -184,7 +184,7 @@ Definition c15_xrep_step := XRepModel.xrep_step c15_mq_fix.
 Definition c15_sub_step := SubModel.sub_step C05_SUB_UNSUB_CLEARS_POLL.
 Definition c15_xsub_step := XsubModel.xsub_step C05_MSGQ_GET_TRIES_FIRST C05_MSGQ_RESIZE_NOTIFIES.
 Definition c15_pub_step := PubModel.pub_step.
-Definition c15_push_step := PushModel.push_step.
+Definition c15_push_step := PushModel.push_step_r C06_PUSH_RESIZE_ADMITS_FIXED.
 Definition c15_pull_step := PullModel.pull_step.
 Definition c15_surv_step := SurveyModel.surv_step C07_SURV_NBRECV_FIXED.
 Definition c15_resp_step := RespondModel.resp_step c15_resp_fix.
